@@ -56,10 +56,15 @@ def units(ctx):
     from vlib.pyvc.unit import contract_unit as _cu
     us += [_cu(c, world_setup=_eg.setup_nodes) for c in _eg.node_contracts()]
     from contracts import colls3 as _c3
+    from contracts import runner as _r5t
     from vlib.pyvc.unit import contract_unit as _cu3
     us += [_cu3(c, world_setup=_c3.setup)
            for c in _c3.predicate_contracts() + _c3.wrapper_contracts()
            if 'C11' in c.serves]
+    # a name written twice among the keyword arguments is refused (the
+    # earlier operand would be dropped unevaluated)
+    us += [_cu3(c, world_setup=_r5t.setup)
+           for c in _r5t.translate_contracts() if 'C11' in c.serves]
     # operands of a host method call on a yaqlized object
     from contracts import yaqlized as _yz
     us += [_cu3(c, world_setup=_yz.setup_sinks_opdot)
